@@ -148,7 +148,7 @@ class Cache(Machine):
 
         envs = [{"name": f"h{e}", "shape": shape(s.choice([0, 1, 1, 2, 3])), "gen": s.u64() % (1 << 48),
                  "sign": s.choice([None, None, "eddsa"])} for e in range(s.randint(1, 3))]
-        blobs = [[f"b{j}", s.choice([0, 1, 2, 7, 16, 24, 255, 256, 1000, 5000])] for j in range(s.randint(2, 6))]
+        blobs = [[self.odd_stem(s, f"b{j}"), s.choice([0, 1, 2, 7, 16, 24, 255, 256, 1000, 5000])] for j in range(s.randint(2, 6))]
         ops = [{"kind": "setup", "i": 0, "envs": envs, "blobs": blobs, "fmt": s.choice(["yaml", "json"])}]
         env_slots = [e["name"] for e in envs]
         cache_slots = []
@@ -170,14 +170,14 @@ class Cache(Machine):
                                     s.choice(PAYLOAD_NAMES)]) + (str(j) if s.chance(0.85) else "")
                     # aim the slot length at interesting residues by choosing a blob size relative to eb
                     inputs.append([uri, b[0], s.choice([None, None, 0, 1, 2, eb - 1, eb, eb + 1])])
-                out = f"c{i}"
+                out = self.odd_stem(s, f"c{i}")
                 ops.append({"kind": "from_payloads", "i": i, "inputs": inputs, "eb": eb, "out": out,
                             "dirty": s.choice(self.DIRTY_VARIANTS)})
                 cache_slots.append(out)
             elif r < 0.62:
                 src = s.choice(env_slots)
-                out_env = src if s.chance(0.25) else f"s{i}"
-                out = f"c{i}"
+                out_env = src if s.chance(0.25) else self.odd_stem(s, f"s{i}")
+                out = self.odd_stem(s, f"c{i}")
                 ops.append({"kind": "from_envelope", "i": i, "in": src, "out_env": out_env, "out": out, "eb": eb,
                             "omit": s.choice(REGEXES), "dep": s.choice(REGEXES), "dirty": s.choice(self.DIRTY_VARIANTS)})
                 cache_slots.append(out)
@@ -186,12 +186,12 @@ class Cache(Machine):
             elif r < 0.80 and cache_slots:
                 k = s.randint(1, min(4, len(cache_slots)))
                 ins = [s.choice(cache_slots) for _ in range(k)]
-                out = s.choice(ins) if s.chance(0.15) else f"c{i}"
+                out = s.choice(ins) if s.chance(0.15) else self.odd_stem(s, f"c{i}")
                 ops.append({"kind": "merge", "i": i, "inputs": ins, "out": out, "eb": eb, "dirty": s.choice(self.DIRTY_VARIANTS)})
                 cache_slots.append(out)
             else:
                 src = s.choice(env_slots)
-                out_env = src if s.chance(0.25) else f"x{i}"
+                out_env = src if s.chance(0.25) else self.odd_stem(s, f"x{i}")
                 ops.append({"kind": "extract", "i": i, "in": src, "out_env": out_env, "pick": s.below(8),
                             "out_file": s.chance(0.7), "replace": s.choice([None, None, s.choice(blobs)[0]]),
                             "dirty": s.choice(self.DIRTY_VARIANTS)})
